@@ -16,6 +16,7 @@
 package verifrt
 
 import (
+	"unsafe"
 	"fmt"
 	"hash/fnv"
 	"reflect"
@@ -97,6 +98,7 @@ type op struct {
 	enabled func(e *Exec) bool // nil = always enabled (blocking is discovered)
 	wakeAt  time.Duration      // OpSleep/OpConnRead: virtual time at which it becomes enabled anyway (0 = none)
 	pc      uintptr            // call site of shim operations (their pos is only the operation name)
+	ph      uint64             // hash of pos, kind and pc (set when the goroutine parks)
 }
 
 func callerPC(skip int) uintptr {
@@ -193,6 +195,7 @@ type Exec struct {
 	objCount    uint64
 	panicVal    string
 	CollectKeys bool
+	invariant   func() string // evaluated by the scheduler in every quiescent state
 	TimeJumps   bool // offer 'a pending timer fires although goroutines are runnable' as an alternative
 }
 
@@ -206,19 +209,15 @@ func current() *Exec {
 	return e
 }
 
-func goid() int64 {
-	var buf [40]byte
-	n := runtime.Stack(buf[:], false)
-	// "goroutine 123 ["
-	var id int64
-	for _, c := range buf[10:n] {
-		if c < '0' || c > '9' {
-			break
-		}
-		id = id*10 + int64(c-'0')
-	}
-	return id
-}
+// Goroutine identity without parsing stack traces: the goroutine's profiler-label slot
+// (copied to children by the runtime, overwritten by our spawn wrapper) holds the *G.
+// CPU profiling must therefore not be enabled in controlled executions.
+//
+//go:linkname runtime_getProfLabel runtime/pprof.runtime_getProfLabel
+func runtime_getProfLabel() unsafe.Pointer
+
+//go:linkname runtime_setProfLabel runtime/pprof.runtime_setProfLabel
+func runtime_setProfLabel(labels unsafe.Pointer)
 
 func mix(a, b uint64) uint64 {
 	x := a*0x9e3779b97f4a7c15 ^ (b + 0x632be59bd9b4e019 + (a << 6) + (a >> 2))
@@ -235,12 +234,9 @@ func hstr(s string) uint64 {
 }
 
 func (e *Exec) self() *G {
-	id := goid()
-	e.mu.Lock()
-	g := e.byGoid[id]
-	e.mu.Unlock()
-	if g == nil {
-		panic(fmt.Sprintf("verifrt: goroutine %d is not under the scheduler (spawned by uninstrumented code?)", id))
+	g := (*G)(runtime_getProfLabel())
+	if g == nil || g.exec != e {
+		panic("verifrt: goroutine is not under the scheduler (spawned by uninstrumented code, or a stale execution)")
 	}
 	return g
 }
@@ -259,6 +255,9 @@ func (e *Exec) exitIfAborted() {
 func (e *Exec) point(g *G, o *op) int {
 	e.exitIfAborted()
 	e.mu.Lock()
+	if o.ph == 0 {
+		o.ph = hstr(o.pos) ^ uint64(o.kind)<<56 ^ uint64(o.pc)*0x9e3779b1
+	}
 	g.op = o
 	g.state = gAtPoint
 	g.inOp = false
@@ -288,7 +287,7 @@ func (e *Exec) done(g *G, o *op, extra uint64) {
 	}
 	e.mu.Lock()
 	g.inOp = false
-	h := mix(g.hash, hstr(o.pos)^uint64(o.kind)<<56^uint64(o.pc)*0x9e3779b1)
+	h := mix(g.hash, o.ph)
 	if o.obj != nil {
 		h = mix(h, o.obj.hash)
 	}
@@ -343,15 +342,12 @@ func (e *Exec) spawn(parent *G, pos string, fn func()) *G {
 	}
 	g.pathH = hstr(g.path)
 	g.state = gAtPoint
-	g.op = &op{kind: OpStart, pos: pos}
+	g.op = &op{kind: OpStart, pos: pos, ph: hstr(pos)}
 	e.gs = append(e.gs, g)
 	e.mu.Unlock()
 	ready := make(chan struct{})
 	go func() {
-		id := goid()
-		e.mu.Lock()
-		e.byGoid[id] = g
-		e.mu.Unlock()
+		runtime_setProfLabel(unsafe.Pointer(g))
 		close(ready)
 		defer func() {
 			if r := recover(); r != nil {
@@ -368,8 +364,8 @@ func (e *Exec) spawn(parent *G, pos string, fn func()) *G {
 			e.mu.Lock()
 			g.state = gExited
 			g.inOp = false
-			delete(e.byGoid, id)
 			e.mu.Unlock()
+			runtime_setProfLabel(nil)
 		}()
 		select {
 		case <-g.wake:
@@ -429,6 +425,15 @@ func (e *Exec) Now() time.Duration {
 	return e.now
 }
 
+// SetInvariant installs a state invariant that the scheduler evaluates in every quiescent
+// state (all goroutines parked or blocked). It must only read, without synchronisation.
+func SetInvariant(f func() string) {
+	e := current()
+	e.mu.Lock()
+	e.invariant = f
+	e.mu.Unlock()
+}
+
 // Yield is an explicit scheduling point (used by harness code in polling loops).
 func Yield(pos string) {
 	e := current()
@@ -470,31 +475,22 @@ const (
 )
 
 func (e *Exec) stateKey() uint64 {
-	type ent struct{ a, b uint64 }
-	ents := make([]ent, 0, len(e.gs))
+	// order-independent combination (sum) of per-goroutine contributions: the key of a
+	// state is the multiset of (identity, history hash, control point) plus clock and timers
+	h := mix(uint64(e.now)+0x1234567, 0x51)
 	for _, g := range e.gs {
 		v := g.hash ^ uint64(g.state)<<60
 		if g.inOp {
 			v ^= 0x5555
 		}
 		if g.state != gExited && g.op != nil {
-			v = mix(v, hstr(g.op.pos)^uint64(g.op.kind)^uint64(g.op.pc)*0x9e3779b1)
+			v = mix(v, g.op.ph)
 		}
-		ents = append(ents, ent{g.pathH, v})
-	}
-	sort.Slice(ents, func(i, j int) bool {
-		if ents[i].a != ents[j].a {
-			return ents[i].a < ents[j].a
-		}
-		return ents[i].b < ents[j].b
-	})
-	h := uint64(e.now) + 0x1234567
-	for _, x := range ents {
-		h = mix(mix(h, x.a), x.b)
+		h += mix(g.pathH, v)
 	}
 	for _, t := range e.timers {
 		if t.active {
-			h = mix(h, uint64(t.deadline)^t.idh)
+			h += mix(uint64(t.deadline), t.idh)
 		}
 	}
 	return h
@@ -634,6 +630,13 @@ func (e *Exec) loop() {
 				g.stamped = true
 				e.seq++
 				g.arrived = e.seq
+			}
+		}
+		if e.invariant != nil {
+			if msg := e.invariant(); msg != "" {
+				e.verdict = Verdict{Kind: "invariant", Detail: msg}
+				e.mu.Unlock()
+				return
 			}
 		}
 		cands := e.collect()
